@@ -159,7 +159,7 @@ class Ctx:
                 f.write(cfg_text)
         cfg = cfg or module
         if workers is None:
-            workers = 1 if mode != "bfs" else NCPU
+            workers = 1 if mode != "bfs" else min(8, NCPU)
         meta = os.path.join(d, "meta")
         cmd = ["java", "-XX:+UseParallelGC", "-Xss64m"]
         if heap:
